@@ -36,9 +36,16 @@ ASSUMPTIONS = [
 BUDGET_S = {"quick": 70, "thorough": 800}
 ROUTES = ["from_config", "get_quantizer_dict", "get_quantizer_legacy_dict",
           "keras_deserialize"]
+# options without any effect on outputs (variable plumbing only); symmetric
+# of quantized_hswish cannot matter (hswish >= -0.375 never reaches the
+# negative clip)
+UNOBSERVABLE = {"var_name", "use_variables"}
 _REQ = (["lattice", "hyp", "registry", "call_first", "config_first",
          "orig_ok", "phase1_differs"] + O.CLASSES +
-        ["opt:%s.%s" % (c, p) for c in O.CLASSES for p, _ in O.SPEC[c]])
+        ["opt:%s.%s" % (c, p) for c in O.CLASSES for p, _ in O.SPEC[c]] +
+        ["observable:%s.%s" % (c, p) for c in O.CLASSES for p, _ in O.SPEC[c]
+         if p not in UNOBSERVABLE and (c, p) != ("quantized_hswish",
+                                                   "symmetric")])
 REQUIRED_LABELS = {"quick": _REQ, "thorough": _REQ}
 
 LATTICE_PROBES = ["r1", "r2", "r4"]
@@ -308,15 +315,26 @@ def run(ctx):
   for i, c in enumerate(cfgs):
     orders = [True, False] if c["kw"].get("use_variables") else [i % 2 == 0]
     for cf in orders:
-      cases.append({"cls": c["cls"], "kw": c["kw"], "call_first": cf,
-                    "probes": LATTICE_PROBES, "seed": LATTICE_SEED})
-  for case in ctx.shard(cases):
+      cases.append(({"cls": c["cls"], "kw": c["kw"], "call_first": cf,
+                     "probes": LATTICE_PROBES, "seed": LATTICE_SEED},
+                    c.get("single")))
+  for case, single in ctx.shard(cases):
     if ctx.time_left() <= 0:
       ctx.labels["inconclusive_time"] += 1
       break
     st = {}
     fails = oracle(ctx, case, st)
-    ctx.tick(case, labels=["lattice"] + _labels(case, st),
+    labs = ["lattice"] + _labels(case, st)
+    if single is not None and st.get("orig_ok"):
+      # generator power: does this option change the function at all here?
+      base = {k: v for k, v in case["kw"].items() if k != single}
+      if O.admissible(case["cls"], base):
+        a = _observe_direct(case["cls"], case["kw"], LATTICE_PROBES,
+                            LATTICE_SEED)
+        b = _observe_direct(case["cls"], base, LATTICE_PROBES, LATTICE_SEED)
+        if O.obs_diff(a, b) is not None:
+          labs.append("observable:%s.%s" % (case["cls"], single))
+    ctx.tick(case, labels=labs,
              nontrivial=bool(case["kw"]) and st.get("orig_ok", False))
     _emit(ctx, fails)
 
